@@ -66,7 +66,7 @@ func init() {
 			"the buffer's append lies behind its size and retry bounds with the retry counter incremented first; the retry loop re-enters addLeafMemorized (the function holding the verify/exists/parent guards) and nothing else inserts into the DAG. "+
 			"That every delivery permutation converges to the parents-first ledger is a schedule property and not decided.",
 		runC13)
-	register("C14", []string{"./accountant"},
+	register("C14", []string{"./accountant", "./gossip"},
 		"Structural necessary condition of all-or-nothing sync: in LoadDag the store dagLoaded = true is unreachable from any cancel call, every failing step (index reservation, vertex insertion, edge insertion, second self-sealed vertex, empty transaction, missing root, wrong type) "+
 			"leads to cancel, and the genesis address originates from a root vertex's issuer. Equality of vertex sets, balances and follow-up behaviour are history properties and not decided.",
 		runC14)
@@ -434,6 +434,27 @@ func sliceLitOrArrayElems(v ssa.Value) []ssa.Value {
 	return nil
 }
 
+// genesisReceiverUsed matches the value that CreateGenesis hands to transaction.New as receiver address:
+// the sealing rule must be evaluated on that very value, not on one it is later derived from.
+func genesisReceiverUsed(fn *ssa.Function) func(ssa.Value) bool {
+	news := deepCalls(fn, func(c ssa.CallInstruction) bool { return calleeName(c) == cn("transaction", "", "New") }, 1)
+	return func(v ssa.Value) bool {
+		for _, d := range news {
+			a := d.c.Common().Args
+			if len(a) < 4 {
+				continue
+			}
+			if len(d.chain) == 0 && sameVal(a[3], v) {
+				return true
+			}
+			if len(d.chain) > 0 && d.path(a[3]) == pathOf(v) {
+				return true
+			}
+		}
+		return false
+	}
+}
+
 // ---------------------------------------------------------------------------------------------
 
 func runC10(w *World, r *Report) {
@@ -497,7 +518,7 @@ func runC10(w *World, r *Report) {
 			}},
 		}},
 		{"CreateGenesis", nAddVertexByID, []guard{
-			{"genesis receiver != genesis issuer", func(fn *ssa.Function) []Edge { return cmpEdges(fn, pathIs("receiverPublicAddress"), signerAddr, false) }},
+			{"genesis receiver != genesis issuer", func(fn *ssa.Function) []Edge { return cmpEdges(fn, genesisReceiverUsed(fn), signerAddr, false) }},
 		}},
 	}
 	for _, row := range table {
@@ -1094,6 +1115,55 @@ func runC14(w *World, r *Report) {
 
 	r.rule("malformed-stream-refused", "a second self-sealed vertex and an empty transaction in the stream each lead to cancel (never to the loaded flag)", 2)
 	syncGuardObligations(w, r, "malformed-stream-refused")
+
+	// transport: a stream that broke is not mistaken for one that ended
+	r.rule("transport-reports-failure", "serving handler: the error of stream.Send can reach the handler's result; loading client: the errors of stream.Recv and of the vertex mapping can reach updateDag's result (a broken stream is not reported as a clean end)", 2)
+	transport := []struct{ fn, callee, what string }{
+		{"LoadDag", "Send", "a vertex that could not be sent"},
+		{"updateDag", "Recv", "a receive that failed"},
+		{"updateDag", "mapProtoVertexToAccountantVertex", "a vertex that could not be decoded"},
+	}
+	for _, row := range transport {
+		f := w.fx(r, "gossip", "gossiper", row.fn)
+		if f == nil {
+			continue
+		}
+		var sites []ssa.CallInstruction
+		instrsOf(f.fn, func(in ssa.Instruction) {
+			c, ok := in.(ssa.CallInstruction)
+			if !ok {
+				return
+			}
+			name := ""
+			if c.Common().IsInvoke() {
+				name = c.Common().Method.Name()
+			} else if cal := c.Common().StaticCallee(); cal != nil {
+				name = cal.Name()
+			}
+			if name == row.callee && errResult(c) != nil {
+				sites = append(sites, c)
+			}
+		})
+		if len(sites) == 0 {
+			r.bad("transport-reports-failure", row.fn+"/"+row.callee, w.Pos(f.fn.Pos()), "anchor call "+row.callee+" exists in "+row.fn, "not found")
+			continue
+		}
+		for _, c := range sites {
+			ev := errResult(c)
+			flows := false
+			for _, ret := range returnsOf(f.fn) {
+				vals, _ := resultVals(ret, len(ret.Results)-1)
+				for _, rv := range vals {
+					for _, o := range origins(rv) {
+						if sameVal(o, ev) {
+							flows = true
+						}
+					}
+				}
+			}
+			r.check(flows, "transport-reports-failure", row.fn+"/"+row.callee, lineOf(w, c), row.what+" can be reported by "+row.fn, "the error of "+row.callee+" never reaches a return of "+row.fn+": the peer sees a clean end of a truncated stream")
+		}
+	}
 
 	r.rule("genesis-from-root", "the genesis address stored by LoadDag is the issuer of a root vertex", 1)
 	okGen := false
